@@ -6,7 +6,7 @@
    soundness theorems over the plain tree [mroot] are not yet proved (stated below as the
    checked, bounded obligations they currently are). *)
 From Coq Require Import List NArith.
-From Sia Require Import Prim.Tok Merkle.Tree Merkle.Forest Merkle.Rhp Merkle.RhpProofs Merkle.RhpRoot Merkle.RgComplete Merkle.RgSound Merkle.RgSound2 Merkle.RgAppend Merkle.RgGap Merkle.RgMulti Merkle.RgDiff2 Merkle.RgDiff3 Merkle.RgRpv1 Merkle.RgRpv2.
+From Sia Require Import Prim.Tok Merkle.Tree Merkle.Forest Merkle.Rhp Merkle.RhpProofs Merkle.RhpRoot Merkle.RgComplete Merkle.RgSound Merkle.RgSound2 Merkle.RgAppend Merkle.RgGap Merkle.RgMulti Merkle.RgDiff2 Merkle.RgDiff3 Merkle.RgRpv1 Merkle.RgRpv2 Merkle.StorageProof Merkle.RgConv1 Merkle.RgConv2.
 Import ListNotations.
 
 Theorem C16_accumulator_is_forest : forall H L ds xs, Repr hash (node H) L ds ->
@@ -277,3 +277,12 @@ Theorem C16_range_proof_verifier_sound : forall H (k : N) (ls proof lv : list ha
   (lv = slice ls s (e - s) /\ proof = build_range_proof H ls s e) \/ RgSound.NodeCollision H.
 Proof. exact rpv_sound. Qed.
 Print Assumptions C16_range_proof_verifier_sound.
+
+(* ---- ConvertProofOrdering: from the RHP leaf proof to the consensus storage proof ---- *)
+(* for a perfect tree of 2^a leaf hashes (a sector: a = 16) and any leaf i, reordering the left-to-right proof built by
+   BuildSectorRangeProof / BuildSectorProof for [i, i+1) gives exactly the bottom-up sibling list of the plain tree -- the
+   list the consensus storage-proof verifier accepts (C07_storage_proof_v2_complete) *)
+Theorem C16_convert_proof_ordering : forall H (a : nat) (L : list hash) i, (1 <= a <= 30)%nat -> length L = Nat.pow 2 a -> (i < 2 ^ N.of_nat a)%N ->
+  convert_proof_ordering (build_range_proof H L i (i + 1)) i = sp_prove H (length L) L (N.to_nat i).
+Proof. exact convert_is_storage_proof. Qed.
+Print Assumptions C16_convert_proof_ordering.
